@@ -239,10 +239,15 @@ fn raw_resources(r: &impl Resolve, page_ref: PlainRef) -> Option<Primitive> {
 }
 
 /// one import case, executed inside the worker
-pub fn run_case(src: &[u8], pw: &[u8], selection: &[u32]) -> std::result::Result<String, (String, String)> {
+/// (every difference is reported, not only the first: a known finding on one resource must not hide the others)
+pub fn run_case(src: &[u8], pw: &[u8], selection: &[u32]) -> std::result::Result<String, Vec<(String, String)>> {
+    run_case_inner(src, pw, selection).map_err(|e| e).and_then(|(class, diffs)| if diffs.is_empty() { Ok(class) } else { Err(diffs) })
+}
+fn run_case_inner(src: &[u8], pw: &[u8], selection: &[u32]) -> std::result::Result<(String, Vec<(String, String)>), Vec<(String, String)>> {
+    let mut diffs: Vec<(String, String)> = vec![];
     let src_file = match FileOptions::uncached().password(pw).load(src.to_vec()) {
         Ok(f) => f,
-        Err(e) => return Ok(format!("source-does-not-load:{}", err_variant(&e))),
+        Err(e) => return Ok((format!("source-does-not-load:{}", err_variant(&e)), vec![])),
     };
     let mut builder = PdfBuilder::new(FileOptions::uncached());
     let mut pages = vec![];
@@ -251,34 +256,34 @@ pub fn run_case(src: &[u8], pw: &[u8], selection: &[u32]) -> std::result::Result
         for &i in selection {
             let page = match src_file.get_page(i) {
                 Ok(p) => p,
-                Err(e) => return Ok(format!("source-page-unreadable:{}", err_variant(&e))),
+                Err(e) => return Ok((format!("source-page-unreadable:{}", err_variant(&e)), vec![])),
             };
             match PageBuilder::clone_page(&page, &mut importer) {
                 Ok(pb) => pages.push(pb),
                 // "when importing succeeds": an error is allowed
-                Err(e) => return Ok(format!("import-error:{}", err_variant(&e))),
+                Err(e) => return Ok((format!("import-error:{}", err_variant(&e)), vec![])),
             }
         }
     }
     let bytes = match builder.build(CatalogBuilder::from_pages(pages)) {
         Ok(b) => b,
-        Err(e) => return Ok(format!("build-error:{}", err_variant(&e))),
+        Err(e) => return Ok((format!("build-error:{}", err_variant(&e)), vec![])),
     };
     // closure: every reference of the new document points into the new document
-    let doc = crate::refread::RefDoc::open(&bytes).map_err(|m| ("new-document-structure".to_string(), m))?;
+    let doc = crate::refread::RefDoc::open(&bytes).map_err(|m| vec![("new-document-structure".to_string(), m)])?;
     let problems = doc.validate(true);
     if !problems.is_empty() {
         let kind = if problems.iter().any(|p| p.contains("undefined object")) { "dangling-reference-in-new-document" } else { "new-document-invalid" };
-        return Err((kind.into(), truncate(&problems.join("; "), 300)));
+        return Err(vec![(kind.into(), truncate(&problems.join("; "), 300))]);
     }
-    let new_file = FileOptions::uncached().load(bytes.clone()).map_err(|e| (format!("new-document-does-not-load:{}", err_variant(&e)), truncate(&format!("{}", err_root(&e)), 200)))?;
+    let new_file = FileOptions::uncached().load(bytes.clone()).map_err(|e| vec![(format!("new-document-does-not-load:{}", err_variant(&e)), truncate(&format!("{}", err_root(&e)), 200))])?;
     if new_file.num_pages() as usize != selection.len() {
-        return Err(("page-count".into(), format!("{} pages imported, {} in the new document", selection.len(), new_file.num_pages())));
+        return Err(vec![("page-count".into(), format!("{} pages imported, {} in the new document", selection.len(), new_file.num_pages()))]);
     }
     let (rs, rn) = (src_file.resolver(), new_file.resolver());
     for (k, &i) in selection.iter().enumerate() {
-        let sp = src_file.get_page(i).map_err(|e| ("source-page".to_string(), err_variant(&e)))?;
-        let np = new_file.get_page(k as u32).map_err(|e| (format!("new-page-error:{}", err_variant(&e)), format!("page {}", k)))?;
+        let sp = src_file.get_page(i).map_err(|e| vec![("source-page".to_string(), err_variant(&e))])?;
+        let np = new_file.get_page(k as u32).map_err(|e| vec![(format!("new-page-error:{}", err_variant(&e)), format!("page {}", k))])?;
         let (sm, nm) = (sp.media_box().ok(), np.media_box().ok());
         let (sc, nc) = (sp.crop_box().ok(), np.crop_box().ok());
         let rect_eq = |a: &Option<Rectangle>, b: &Option<Rectangle>| match (a, b) {
@@ -287,20 +292,20 @@ pub fn run_case(src: &[u8], pw: &[u8], selection: &[u32]) -> std::result::Result
             _ => false,
         };
         if !rect_eq(&sm, &nm) {
-            return Err(("media-box".into(), format!("page {}: source {:?} new {:?}", i, sm, nm)));
+            diffs.push(("media-box".into(), format!("page {}: source {:?} new {:?}", i, sm, nm)));
         }
         if !rect_eq(&sc, &nc) {
-            return Err(("crop-box".into(), format!("page {}: source {:?} new {:?}", i, sc, nc)));
+            diffs.push(("crop-box".into(), format!("page {}: source {:?} new {:?}", i, sc, nc)));
         }
         if sp.rotate != np.rotate {
-            return Err(("rotation".into(), format!("page {}: {} vs {}", i, sp.rotate, np.rotate)));
+            diffs.push(("rotation".into(), format!("page {}: {} vs {}", i, sp.rotate, np.rotate)));
         }
-        let sops = sp.contents.as_ref().map(|c| c.operations(&rs)).transpose().map_err(|e| ("source-ops".to_string(), err_variant(&e)))?.unwrap_or_default();
-        let nops = np.contents.as_ref().map(|c| c.operations(&rn)).transpose().map_err(|e| (format!("new-ops-error:{}", err_variant(&e)), format!("page {}", i)))?.unwrap_or_default();
+        let sops = sp.contents.as_ref().map(|c| c.operations(&rs)).transpose().map_err(|e| vec![("source-ops".to_string(), err_variant(&e))])?.unwrap_or_default();
+        let nops = np.contents.as_ref().map(|c| c.operations(&rn)).transpose().map_err(|e| vec![(format!("new-ops-error:{}", err_variant(&e)), format!("page {}", i))])?.unwrap_or_default();
         // (inline images included: canonical text carries their entries and decoded data)
         let (a, b) = (canon_seq(&sops), canon_seq(&nops));
         if a != b {
-            return Err(("operations-differ".into(), format!("page {}: source {:?} new {:?}", i, truncate(&format!("{:?}", a), 200), truncate(&format!("{:?}", b), 200))));
+            diffs.push(("operations-differ".into(), format!("page {}: source {:?} new {:?}", i, truncate(&format!("{:?}", a), 200), truncate(&format!("{:?}", b), 200))));
         }
         // every resource the operations name
         let sres = raw_resources(&rs, sp.get_ref().get_inner());
@@ -318,10 +323,10 @@ pub fn run_case(src: &[u8], pw: &[u8], selection: &[u32]) -> std::result::Result
             });
             let nv = nv.and_then(|c| if let Primitive::Dictionary(d) = c { d.get(&name).cloned() } else { None });
             match nv {
-                None => return Err((format!("resource-missing:{}", cat), format!("page {}: the operations use /{} {} but the new page's resources do not define it", i, cat, name))),
+                None => diffs.push((format!("resource-missing:{}/{}", cat, name), format!("page {}: the operations use /{} {} but the new page's resources do not define it", i, cat, name))),
                 Some(nv) => {
                     if let Err(m) = deep_equal(&sv, &rs, &nv, &rn, &mut vec![], 12) {
-                        return Err((format!("resource-differs:{}", cat), format!("page {}: /{} {}: {}", i, cat, name, m)));
+                        diffs.push((format!("resource-differs:{}/{}", cat, name), format!("page {}: /{} {}: {}", i, cat, name, m)));
                     }
                 }
             }
@@ -331,10 +336,10 @@ pub fn run_case(src: &[u8], pw: &[u8], selection: &[u32]) -> std::result::Result
             match np.other.get(key.as_str()) {
                 Some(w) => {
                     if let Err(m) = deep_equal(v, &rs, w, &rn, &mut vec![], 8) {
-                        return Err(("extra-entry-differs".into(), format!("page {} /{}: {}", i, key.as_str(), m)));
+                        diffs.push(("extra-entry-differs".into(), format!("page {} /{}: {}", i, key.as_str(), m)));
                     }
                 }
-                None => return Err(("extra-entry-missing".into(), format!("page {} /{}", i, key.as_str()))),
+                None => diffs.push(("extra-entry-missing".into(), format!("page {} /{}", i, key.as_str()))),
             }
         }
     }
@@ -355,12 +360,12 @@ pub fn run_case(src: &[u8], pw: &[u8], selection: &[u32]) -> std::result::Result
         }
     }
     if helv > 1 {
-        return Err(("shared-object-copied-twice".into(), format!("the font object shared by the imported pages exists {} times in the new document", helv)));
+        diffs.push(("shared-object-copied-twice".into(), format!("the font object shared by the imported pages exists {} times in the new document", helv)));
     }
     if secret > 1 {
-        return Err(("shared-object-copied-twice".into(), format!("the private object shared by two pages exists {} times in the new document", secret)));
+        diffs.push(("shared-object-copied-twice".into(), format!("the private object shared by two pages exists {} times in the new document", secret)));
     }
-    Ok("imported-equal".into())
+    Ok(("imported-equal".into(), diffs))
 }
 
 pub fn worker_main() {
@@ -381,7 +386,7 @@ pub fn worker_main() {
                 let resp = match r {
                     Err((loc, msg)) => json!({"fail": [panic_kind(&loc), msg]}),
                     Ok(Ok(class)) => json!({"ok": class}),
-                    Ok(Err((kind, detail))) => json!({"fail": [kind, detail]}),
+                    Ok(Err(diffs)) => json!({"fails": diffs.iter().map(|(k, d)| json!([k, d])).collect::<Vec<_>>()}),
                 };
                 if writeln!(out, "{}", resp).is_err() || out.flush().is_err() {
                     break;
@@ -414,9 +419,9 @@ impl Worker {
         let stdout = BufReader::new(child.stdout.take().unwrap());
         Worker { child, stdin, stdout }
     }
-    fn run(&mut self, case: &Value) -> std::result::Result<String, (String, String)> {
+    fn run(&mut self, case: &Value) -> std::result::Result<String, Vec<(String, String)>> {
         if writeln!(self.stdin, "{}", case).is_err() || self.stdin.flush().is_err() {
-            return Err(("process-death".into(), "worker pipe closed".into()));
+            return Err(vec![("process-death".into(), "worker pipe closed".into())]);
         }
         use std::os::unix::io::AsRawFd;
         let fd = self.stdout.get_ref().as_raw_fd();
@@ -425,16 +430,18 @@ impl Worker {
         if rc == 0 {
             let _ = self.child.kill();
             let _ = self.child.wait();
-            return Err(("timeout".into(), "import did not finish within 20 s".into()));
+            return Err(vec![("timeout".into(), "import did not finish within 20 s".into())]);
         }
         let mut line = String::new();
         match self.stdout.read_line(&mut line) {
             Ok(n) if n > 0 => {
-                let v: Value = serde_json::from_str(&line).map_err(|e| ("machinery".to_string(), e.to_string()))?;
+                let v: Value = serde_json::from_str(&line).map_err(|e| vec![("machinery".to_string(), e.to_string())])?;
                 if let Some(c) = v["ok"].as_str() {
                     Ok(c.to_string())
+                } else if let Some(fs) = v["fails"].as_array() {
+                    Err(fs.iter().map(|f| (f[0].as_str().unwrap_or("?").to_string(), f[1].as_str().unwrap_or("").to_string())).collect())
                 } else {
-                    Err((v["fail"][0].as_str().unwrap_or("?").to_string(), v["fail"][1].as_str().unwrap_or("").to_string()))
+                    Err(vec![(v["fail"][0].as_str().unwrap_or("?").to_string(), v["fail"][1].as_str().unwrap_or("").to_string())])
                 }
             }
             _ => {
@@ -444,7 +451,7 @@ impl Worker {
                     Some(6) | Some(11) => "stack-overflow-or-abort",
                     _ => "died",
                 };
-                Err((format!("process-death:{}", how), format!("the worker process died (signal {:?}) while importing", sig)))
+                Err(vec![(format!("process-death:{}", how), format!("the worker process died (signal {:?}) while importing", sig))])
             }
         }
     }
@@ -458,15 +465,15 @@ impl Drop for Worker {
 thread_local! {
     static W: RefCell<Option<Worker>> = RefCell::new(None);
 }
-fn run_isolated(case: &Value) -> std::result::Result<String, (String, String)> {
+fn run_isolated(case: &Value) -> std::result::Result<String, Vec<(String, String)>> {
     W.with(|w| {
         let mut w = w.borrow_mut();
         if w.is_none() {
             *w = Some(Worker::spawn());
         }
         let r = w.as_mut().unwrap().run(case);
-        if let Err((k, _)) = &r {
-            if k.starts_with("process-death") || k == "timeout" {
+        if let Err(fails) = &r {
+            if fails.iter().any(|(k, _)| k.starts_with("process-death") || k == "timeout") {
                 *w = None;
             }
         }
@@ -544,9 +551,11 @@ pub fn run(tier: Tier, _seed: u64, tally: &mut Tally) -> CheckMeta {
             t.distinct.insert(fnv(case.to_string().as_bytes()));
             match run_isolated(case) {
                 Ok(class) => t.outcome(&class),
-                Err((kind, detail)) => {
-                    t.outcome(&kind);
-                    t.fail("c20.import", &kind, devs.clone(), format!("{}: {}", case, truncate(&detail, 400)), case.clone());
+                Err(fails) => {
+                    for (kind, detail) in fails {
+                        t.outcome(&kind);
+                        t.fail("c20.import", &kind, devs.clone(), format!("{}: {}", case, truncate(&detail, 400)), case.clone());
+                    }
                 }
             }
             t
@@ -574,6 +583,10 @@ pub fn replay(case: &Value, tally: &mut Tally) {
     println!("case {}", case);
     match run_isolated(case) {
         Ok(c) => println!("outcome: {}", c),
-        Err((kind, detail)) => tally.fail("c20.import", &kind, vec![], detail, case.clone()),
+        Err(fails) => {
+            for (kind, detail) in fails {
+                tally.fail("c20.import", &kind, vec![], detail, case.clone());
+            }
+        }
     }
 }
